@@ -1077,7 +1077,7 @@ class Quaternion(np.ndarray):
         """
         norm_v = np.linalg.norm(self.v)
         if norm_v == 0.0:
-            return np.zeros(4)
+            return np.array([np.log(np.linalg.norm(self.A)), 0.0, 0.0, 0.0])
         u = self.v / norm_v
         if self.is_versor():
             if self.is_pure():
